@@ -28,7 +28,7 @@ func init() {
 			{ID: "C11-R2", Title: "read gate dominates the store; Value has a single writer", Decides: "a characteristic without read permission never stores a value", Floor: 2, Run: c11r2},
 			{ID: "C11-R3", Title: "event gate dominates every Subscribe", Decides: "subscription without event permission is rejected with a status", Floor: 2, Run: c11r3},
 			{ID: "C11-R4", Title: "the HTTP layer is confined to the permission-checking API", Decides: "both update paths go through the gates", Floor: 1, Run: c11r4},
-			{ID: "C11-R5", Title: "predicate <-> permission constant table", Decides: "the gates test the right permission", Floor: 6, Run: c11r5},
+			{ID: "C11-R5", Title: "predicate <-> permission constant table", Decides: "the gates test the right permission", Floor: 6, Run: func(c *core.Ctx) { c11r5(c); returnsUndecorated(c, "C11") }},
 			{ID: "C11-R6", Title: "reads return only the stored value; subscriptions are per characteristic object (shared with C10-R4)", Decides: "no value revealed without read permission; no events without event permission", Floor: 5, Run: c11r6},
 		},
 	})
